@@ -65,6 +65,9 @@ fn main() {
             });
             let tier = tier_from(args.get(3));
             obs::install_hook();
+            if let Some(c) = std::env::var("VERIF_ALLOC_CEILING").ok().and_then(|s| s.parse::<u64>().ok()) {
+                alloc::CEILING.store(c, std::sync::atomic::Ordering::Relaxed);
+            }
             let mut thr = threads();
             let mut trace = false;
             let mut only: Option<u64> = None;
